@@ -7,9 +7,12 @@ event logs (one per operation) are compared exactly.
 Oracle (independent of the model): ghost-log predicates evaluated on the implementation's log, plus the C20
 reference parser on the bytes of the finished responses.
 
-case = {"eager": int, "reqs": [{"pad": int, "close": bool, "script": str}], "ops": [op...]}
-script letters / app actions: n notifyFinish, w write, f finish, r registerProducer(push), u unregisterProducer
-op = ["data", n] | ["tp"] | ["tr"] | ["lose"] | ["app", i, letter]
+case = {"eager": int, "sync": bool, "reqs": [{"pad": int, "close": bool, "script": [action...]}], "ops": [op...]}
+action: "n" notifyFinish | "n:<reaction>" notifyFinish with a callback/errback that, when the Deferred fires, synchronously
+        does each letter of <reaction> (f finish, w write, n notifyFinish, l transport.loseConnection() if the transport
+        reports loss synchronously) | "w" write | "f" finish | "r" registerProducer(push) | "u" unregisterProducer
+op = ["data", n] | ["tp"] | ["tr"] | ["lose"] | ["app", i, action]
+sync: the transport calls connectionLost from inside loseConnection() (like StringTransportWithDisconnection)
 """
 from __future__ import annotations
 
@@ -19,7 +22,8 @@ import warnings
 
 from harness.common import Failure, Spec, coq_bool, coq_list
 
-ACTS = {"n": "ANotify", "w": "AWrite", "f": "AFinish", "r": "AReg", "u": "AUnreg"}
+ACTS = {"w": "AWrite", "f": "AFinish", "r": "AReg", "u": "AUnreg"}
+RACTS = {"f": "RFinish", "w": "RWrite", "n": "RNotify", "l": "RLose"}
 
 
 def req_bytes(i: int, q) -> bytes:
@@ -72,7 +76,9 @@ def _run(case):
 
         def loseConnection(self):
             log.append("CL")
-            StringTransport.loseConnection(self)
+            StringTransport.loseConnection(self)          # disconnecting = True
+            if case.get("sync"):
+                report_loss()
 
     class Prod:
         def __init__(self, i):
@@ -87,16 +93,31 @@ def _run(case):
         def stopProducing(self):
             log.append(f"PS{self.i}")
 
+    def watch(i, k, d, reaction=""):
+        def fired(sign):
+            log.append(f"F{i}.{k}{sign}")
+            for a in reaction:
+                try:
+                    if a == "l":
+                        if case.get("sync"):
+                            t.loseConnection()
+                    else:
+                        act(i, a)
+                except BaseException as e:      # would otherwise vanish into the Deferred
+                    log.append("!" + type(e).__name__)
+
+        d.addCallbacks(lambda v: fired("+" if v is None else f"?{v!r}"),
+                       lambda f: fired("-" if f.check(ConnectionDone) else f"?{f.type.__name__}"))
+
     def act(i, a):
         req = handed[i]
         try:
-            if a == "n":
+            if a[0] == "n":
                 k = ndef.get(i, 0)
                 ndef[i] = k + 1
                 d = req.notifyFinish()
                 log.append(f"D{i}.{k}")
-                d.addCallbacks(lambda v, k=k: log.append(f"F{i}.{k}+" if v is None else f"F{i}.{k}?{v!r}"),
-                               lambda f, k=k: log.append(f"F{i}.{k}-" if f.check(ConnectionDone) else f"F{i}.{k}?{f.type.__name__}"))
+                watch(i, k, d, a[2:])
             elif a == "w":
                 j = nwr.get(i, 0)
                 nwr[i] = j + 1
@@ -135,7 +156,19 @@ def _run(case):
                 log.append(f"L{self.idx}")
             http.Request.connectionLost(self, reason)
 
-    ch = http.HTTPChannel()
+    class Chan(http.HTTPChannel):
+        def connectionLost(self, reason):
+            log.append("G")
+            http.HTTPChannel.connectionLost(self, reason)
+
+    connected = [True]
+
+    def report_loss():
+        if connected[0]:
+            connected[0] = False
+            ch.connectionLost(TFailure(ConnectionDone()))
+
+    ch = Chan()
     ch.requestFactory = Scripted
     ch.timeOut = None
     ch._optimisticEagerReadSize = case["eager"]
@@ -149,14 +182,17 @@ def _run(case):
         log.clear()
         k = op[0]
         if k == "data":
-            ch.dataReceived(stream[pos:pos + op[1]])
+            if connected[0]:
+                ch.dataReceived(stream[pos:pos + op[1]])
             pos += op[1]
         elif k == "tp":
-            ch.pauseProducing()
+            if connected[0]:
+                ch.pauseProducing()
         elif k == "tr":
-            ch.resumeProducing()
+            if connected[0]:
+                ch.resumeProducing()
         elif k == "lose":
-            ch.connectionLost(TFailure(ConnectionDone()))
+            report_loss()
         elif k == "app":
             if op[1] < len(handed):
                 act(op[1], op[2])
@@ -213,9 +249,10 @@ def check_log(case, obs):
             waiting = True
         elif op[0] == "tr":
             waiting = False
-        elif op[0] == "lose":
-            conn_lost = True
         for e in evs:
+            if e.startswith("!"):
+                bad.append(("exception-escapes", where + f"{e[1:]} raised inside finish() / connectionLost / loseConnection"))
+                continue
             m = re.fullmatch(r"([A-Z]+)(\d+)?(?:\.(\d+))?([+-])?", e)
             if not m:
                 bad.append(("unexpected-event", where + e))
@@ -250,7 +287,13 @@ def check_log(case, obs):
                         finished.add(i)
                         if open_ == i:
                             open_ = None
+            elif kind == "G":
+                if conn_lost:
+                    bad.append(("connection-lost-twice", where + "connectionLost delivered again"))
+                conn_lost = True
             elif kind == "L":
+                if not conn_lost:
+                    bad.append(("lost-fanout", where + f"connectionLost delivered to request {i} although the connection is there"))
                 if open_ != i:
                     bad.append(("lost-fanout", where + f"connectionLost delivered to request {i}, open request is {open_}"))
                 lost.add(i)
@@ -320,20 +363,38 @@ def oracle(case, obs):
 # --------------------------------------------------------------------------------------------------
 
 
+def _act(a: str) -> str:
+    if a[0] == "n":
+        return "(ANotify " + coq_list([RACTS[c] for c in a[2:]], "ract") + ")"
+    return ACTS[a]
+
+
 def to_coq(case):
     def q(i, r):
         n = len(req_bytes(i, r))
-        return f"mkQ {n}%N {coq_bool(not r['close'])} {coq_list([ACTS[a] for a in r['script']], 'act')}"
+        return f"mkQ {n}%N {coq_bool(not r['close'])} {coq_list([_act(a) for a in r['script']], 'act')}"
 
     def op(o):
         if o[0] == "data":
             return f"Data {o[1]}%N"
         if o[0] == "app":
-            return f"App {o[1]}%nat {ACTS[o[2]]}"
+            return f"App {o[1]}%nat {_act(o[2])}"
         return {"tp": "TPause", "tr": "TResume", "lose": "Lose"}[o[0]]
 
-    return (f"({case['eager']}%N, {coq_list(['(' + q(i, r) + ')' for i, r in enumerate(case['reqs'])], 'reqspec')}, "
+    return (f"({case['eager']}%N, {coq_bool(bool(case.get('sync')))}, "
+            f"{coq_list(['(' + q(i, r) + ')' for i, r in enumerate(case['reqs'])], 'reqspec')}, "
             f"{coq_list([op(o) for o in case['ops']], 'op')})")
+
+
+REACTIONS = ["f", "n", "w", "l", "fn", "nf", "lf", "fl", "ln", "wfn", "nn", "lwnf", "fnl"]
+
+
+def _notify(rng, p=0.35):
+    return "n:" + rng.choice(REACTIONS) if rng.random() < p else "n"
+
+
+def _script(rng, letters: str):
+    return [_notify(rng) if c == "n" else c for c in letters]
 
 
 SCRIPTS = ["", "", "f", "wf", "nf", "nwf", "nnwwf", "n", "nw", "w", "nn", "rwf", "rnw", "ruf", "wwwf", "nwnwf", "r"]
@@ -341,7 +402,7 @@ SCRIPTS = ["", "", "f", "wf", "nf", "nwf", "nnwwf", "n", "nw", "w", "nn", "rwf",
 
 def _mk_reqs(rng, n):
     return [{"pad": rng.choice([0, 0, 0, 3, 17, 40]), "close": (rng.random() < 0.3) if i == n - 1 else (rng.random() < 0.07),
-             "script": rng.choice(SCRIPTS)} for i in range(n)]
+             "script": _script(rng, rng.choice(SCRIPTS))} for i in range(n)]
 
 
 def _random_case(rng, big=False):
@@ -349,7 +410,7 @@ def _random_case(rng, big=False):
     reqs = _mk_reqs(rng, n)
     if big:
         for q in reqs:
-            q["script"] = rng.choice(["f", "f", "f", "wf", "nf", ""])
+            q["script"] = _script(rng, rng.choice(["f", "f", "f", "wf", "nf", ""]))
             q["close"] = False
     total = sum(len(req_bytes(i, q)) for i, q in enumerate(reqs))
     eager = 16384 if (big or rng.random() < 0.4) else rng.choice([0, 1, 20, 37, 38, 39, 60, 100, 150])
@@ -372,23 +433,24 @@ def _random_case(rng, big=False):
         else:
             i = rng.randrange(min(n, 8))
             a = rng.choice("nnwwfffru") if not lost else rng.choice("nwf")
-            ops.append(["app", i, a])
-    return {"eager": eager, "reqs": reqs, "ops": ops}
+            ops.append(["app", i, _notify(rng) if a == "n" else a])
+    return {"eager": eager, "sync": rng.random() < 0.4, "reqs": reqs, "ops": ops}
 
 
 def gen(rng, tier):
     cases = []
     # bounded-exhaustive: two pipelined requests, every history up to length 3 (thorough 4) over a small alphabet
-    pair_scripts = ["", "nf", "n"]
-    alpha = [["data", 10], ["data", 1000], ["tp"], ["tr"], ["lose"], ["app", 0, "f"], ["app", 0, "n"], ["app", 1, "f"], ["app", 1, "n"]]
+    first_scripts = ["", "nf", "n", ["n:fnl"], ["n:lf", "f"], ["n:n", "n:wf"]]
+    second_scripts = ["", "nf", ["n:fn"]]
+    alpha = [["data", 10], ["data", 1000], ["tp"], ["tr"], ["lose"], ["app", 0, "f"], ["app", 0, "n:fn"], ["app", 1, "f"], ["app", 1, "n:l"]]
     depth = 3 if tier == "quick" else 4
-    for s0 in pair_scripts:
-        for s1 in pair_scripts:
+    for s0 in first_scripts:
+        for s1 in second_scripts:
             reqs = [{"pad": 0, "close": False, "script": s0}, {"pad": 0, "close": False, "script": s1}]
             total = sum(len(req_bytes(i, q)) for i, q in enumerate(reqs))
             for n in range(1, depth + 1):
                 for word in itertools.product(range(len(alpha)), repeat=n):
-                    if n == depth and rng.random() > (0.25 if tier == "quick" else 0.2):
+                    if n == depth and rng.random() > (0.15 if tier == "quick" else 0.12):
                         continue
                     ops, pos, lost, ok = [], 0, False, True
                     for w in word:
@@ -406,7 +468,7 @@ def gen(rng, tier):
                             lost = True
                         ops.append(o)
                     if ok:
-                        cases.append({"eager": 30, "reqs": reqs, "ops": ops})
+                        cases.append({"eager": 30, "sync": rng.random() < 0.6, "reqs": reqs, "ops": ops})
     for _ in range(1200 if tier == "quick" else 15000):
         cases.append(_random_case(rng))
     for _ in range(6 if tier == "quick" else 60):
@@ -429,6 +491,14 @@ def corpus():
         {"eager": 16384, "reqs": two, "ops": [["data", 37], ["lose"], ["app", 0, "n"]]},
         # eager read limit reached while a request is pending, transport pause in between
         {"eager": 20, "reqs": two, "ops": [["data", 37], ["data", 30], ["tp"], ["tr"], ["app", 0, "f"], ["data", 7]]},
+        # an errback of the in-flight request calls finish() and notifyFinish() while a second request is buffered
+        {"eager": 16384, "sync": False, "reqs": [{"pad": 0, "close": False, "script": ["n:fn"]}, {"pad": 0, "close": False, "script": "f"}],
+         "ops": [["data", 200], ["lose"], ["app", 0, "n:w"]]},
+        # a callback drops the connection (synchronously reporting transport) while the finish notifications are delivered
+        {"eager": 16384, "sync": True, "reqs": [{"pad": 0, "close": False, "script": ["n:l", "n:fn"]}, {"pad": 0, "close": False, "script": ["n:n"]}],
+         "ops": [["data", 200], ["app", 0, "f"], ["app", 1, "f"]]},
+        {"eager": 16384, "sync": True, "reqs": [{"pad": 0, "close": True, "script": ["n:ln", "w", "f"]}, {"pad": 0, "close": False, "script": "f"}],
+         "ops": [["data", 200], ["lose"]]},
     ]
 
 
@@ -464,7 +534,8 @@ def shrink(case):
 
 def _hist(case, obs):
     kinds = "".join(sorted({o[0][0] for o in case["ops"]}))
-    return f"reqs={min(len(case['reqs']), 7)} ops={kinds}"
+    re_ = any(":" in a for q in case["reqs"] for a in q["script"]) or any(o[0] == "app" and ":" in o[2] for o in case["ops"])
+    return f"reqs={min(len(case['reqs']), 7)} ops={kinds}{' sync' if case.get('sync') else ''}{' reactions' if re_ else ''}"
 
 
 SPEC = Spec(
